@@ -30,7 +30,7 @@ FUNCTIONS = [
 ]
 BOUNDS = {
     "validators": "all ints for uint16/uint32/boolean/net.ipaddress; digest text of any length with symbolic hex-ness; lists of <= 3 carriers",
-    "plumbing": "16 field types x candidate table (4-18 candidates each) x 4 second operations x candidate; two-step histories (thorough: also every three-step history)",
+    "plumbing": "16 field types x candidate table (4-18 candidates each) x 5 second operations x candidate; two-step histories (thorough: also every three-step history)",
 }
 STUBS = [
     "binascii.a2b_hex replaced by a model that looks only at length parity and a symbolic 'all characters are hex digits' bit (content of a 32-64 character text is beyond CrossHair)",
@@ -363,6 +363,9 @@ def all_valid(rec):
     return None
 
 
+NOPS = 5  # assign, replace, construct, init_from_dict, assign through a grouped record
+
+
 def run_steps(fidx, c1, op2, c2, op3=None, c3=None):
     """-> None if the property holds on this history (two steps, or three when op3/c3 are given), else a description."""
     from flow.record.packer import RecordPacker
@@ -386,15 +389,21 @@ def run_steps(fidx, c1, op2, c2, op3=None, c3=None):
                 kw = {n: getattr(rec, n) for _, n in FIELDS}
                 kw[fname] = value
                 target = D(**kw)
-            else:
+            elif op == 3:
                 kw = {n: getattr(rec, n) for _, n in FIELDS}
                 kw[fname] = value
                 kw["unknown_key"] = 1
                 target = D.init_from_dict(kw)
+            else:
+                # attribute assignment through a grouped record that holds the record as a member (it is the member that changes)
+                from flow.record import GroupedRecord, RecordDescriptor
+
+                other = RecordDescriptor("test/other_member", [("string", "zz_other")])("x")
+                setattr(GroupedRecord("test/group", [other, rec]), fname, value)
             raised = None
         except Exception as e:  # noqa: BLE001
             raised = e
-        history.append((("assign", "replace", "construct", "init_from_dict")[op], fname, repr(value)[:60], "raised " + type(raised).__name__ if raised else "accepted"))
+        history.append((("assign", "replace", "construct", "init_from_dict", "assign-through-group")[op], fname, repr(value)[:60], "raised " + type(raised).__name__ if raised else "accepted"))
         if raised is not None:
             if ok:
                 return f"{history}: a representable value was rejected ({raised})"
@@ -403,7 +412,7 @@ def run_steps(fidx, c1, op2, c2, op3=None, c3=None):
             continue
         if not ok:
             return f"{history}: a value the type cannot represent was accepted; field now holds {getattr(target, fname)!r}"
-        if op != 0 and snapshot(rec) != before:
+        if op not in (0, 4) and snapshot(rec) != before:
             return f"{history}: copying modified the original record"
         bad = all_valid(target)
         if bad:
@@ -429,7 +438,7 @@ def plumbing(fidx: int):
         """
         post: _
         """
-        if not (0 <= c1 < ncand and 0 <= c2 < ncand and 0 <= op2 < 4):
+        if not (0 <= c1 < ncand and 0 <= c2 < ncand and 0 <= op2 < NOPS):
             return True
         a = b = o = 0
         for j in range(ncand):
@@ -437,7 +446,7 @@ def plumbing(fidx: int):
                 a = j
             if c2 == j:
                 b = j
-        for j in range(4):
+        for j in range(NOPS):
             if op2 == j:
                 o = j
         with NoTracing():
@@ -456,7 +465,7 @@ def plumbing3(fidx: int, c1: int):
         """
         post: _
         """
-        if not (0 <= c2 < ncand and 0 <= c3 < ncand and 0 <= op2 < 4 and 0 <= op3 < 4):
+        if not (0 <= c2 < ncand and 0 <= c3 < ncand and 0 <= op2 < NOPS and 0 <= op3 < NOPS):
             return True
         b = c = o2 = o3 = 0
         for j in range(ncand):
@@ -464,7 +473,7 @@ def plumbing3(fidx: int, c1: int):
                 b = j
             if c3 == j:
                 c = j
-        for j in range(4):
+        for j in range(NOPS):
             if op2 == j:
                 o2 = j
             if op3 == j:
@@ -486,11 +495,11 @@ def obligations(tier, seed):
     obs.append(ob("O1-typedlist", "xh", "typed_list", {}, timeout=to, group="O1-validator", bounds="<= 3 carrier elements, None / list / tuple"))
     obs.append(ob("O1-bytes", "xh", "bytes_validator", {}, timeout=to, group="O1-validator", bounds="8 kinds of argument"))
     for i, (t, n) in enumerate(FIELDS):
-        obs.append(ob(f"O2-plumbing/{t}", "xh", "plumbing", {"fidx": i}, timeout=to * 4, group="O2-plumbing", bounds=f"{len(candidates(t))} candidates x 4 operations x {len(candidates(t))} candidates"))
+        obs.append(ob(f"O2-plumbing/{t}", "xh", "plumbing", {"fidx": i}, timeout=to * 4, group="O2-plumbing", bounds=f"{len(candidates(t))} candidates x 5 operations x {len(candidates(t))} candidates"))
     if tier == "thorough":
         for i, (t, n) in enumerate(FIELDS):
             for c1 in range(len(candidates(t))):
-                obs.append(ob(f"O2-plumbing3/{t}/first{c1}", "xh", "plumbing3", {"fidx": i, "c1": c1}, timeout=600, group="O2-plumbing3", bounds=f"three-step histories: (4 operations x {len(candidates(t))} candidates)^2 after candidate {c1}"))
+                obs.append(ob(f"O2-plumbing3/{t}/first{c1}", "xh", "plumbing3", {"fidx": i, "c1": c1}, timeout=600, group="O2-plumbing3", bounds=f"three-step histories: (5 operations x {len(candidates(t))} candidates)^2 after candidate {c1}"))
     return obs
 
 
@@ -502,9 +511,9 @@ def replay(res):
         v = cex_args(res, ["op2", "c2", "op3", "c3"])
         n = len(candidates(FIELDS[a["fidx"]][0]))
         tries = []
-        if all(isinstance(v.get(k), int) for k in ("op2", "c2", "op3", "c3")) and 0 <= v["c2"] < n and 0 <= v["c3"] < n and 0 <= v["op2"] < 4 and 0 <= v["op3"] < 4:
+        if all(isinstance(v.get(k), int) for k in ("op2", "c2", "op3", "c3")) and 0 <= v["c2"] < n and 0 <= v["c3"] < n and 0 <= v["op2"] < NOPS and 0 <= v["op3"] < NOPS:
             tries.append((v["op2"], v["c2"], v["op3"], v["c3"]))
-        tries += [(o2, c2, o3, c3) for o2 in range(4) for c2 in range(n) for o3 in range(4) for c3 in range(n)]
+        tries += [(o2, c2, o3, c3) for o2 in range(NOPS) for c2 in range(n) for o3 in range(NOPS) for c3 in range(n)]
         for o2, c2, o3, c3 in tries:
             p = run_steps(a["fidx"], a["c1"], o2, c2, o3, c3)
             if p:
@@ -515,9 +524,9 @@ def replay(res):
         v = cex_args(res, ["c1", "op2", "c2"])
         n = len(candidates(FIELDS[a["fidx"]][0]))
         tries = []
-        if all(isinstance(v.get(k), int) for k in ("c1", "op2", "c2")) and 0 <= v["c1"] < n and 0 <= v["c2"] < n and 0 <= v["op2"] < 4:
+        if all(isinstance(v.get(k), int) for k in ("c1", "op2", "c2")) and 0 <= v["c1"] < n and 0 <= v["c2"] < n and 0 <= v["op2"] < NOPS:
             tries.append((v["c1"], v["op2"], v["c2"]))
-        tries += [(c1, op, c2) for c1 in range(n) for op in range(4) for c2 in range(n)]
+        tries += [(c1, op, c2) for c1 in range(n) for op in range(NOPS) for c2 in range(n)]
         for c1, op, c2 in tries:
             problem = run_steps(a["fidx"], c1, op, c2)
             if problem:
